@@ -354,16 +354,21 @@ func genReq(rt *rapid.T, l string, faulty bool) Req {
 		r.Result.ProfShape = rapid.SampledFrom(shapes).Draw(rt, l+".profshape")
 	}
 	if faulty {
-		// a client that gives up is most interesting while the database is stalling or slow
+		if rapid.IntRange(0, 6).Draw(rt, l+".slow") == 0 {
+			r.WriteUs = rapid.SampledFrom([]int64{1, 1000}).Draw(rt, l+".writeus")
+		}
+		// a client that gives up is most interesting while the database is stalling or slow - or while the client itself
+		// reads slowly: the handler then sits in a write with the whole pipeline backed up behind it
 		cancelOdds := 5
-		if r.Result.StallAtRow > 0 || r.Result.QueryDelayUs >= 2000000 {
+		if r.Result.StallAtRow > 0 || r.Result.QueryDelayUs >= 2000000 || r.WriteUs > 0 {
 			cancelOdds = 1
 		}
 		if rapid.IntRange(0, cancelOdds).Draw(rt, l+".cancel") == 0 {
 			r.CancelUs = rapid.SampledFrom([]int64{1, 50, 3000, 500000}).Draw(rt, l+".cancelus")
-		}
-		if rapid.IntRange(0, 6).Draw(rt, l+".slow") == 0 {
-			r.WriteUs = rapid.SampledFrom([]int64{1, 1000}).Draw(rt, l+".writeus")
+			if r.WriteUs > 0 {
+				// after a few chunks of the response
+				r.CancelUs = r.WriteUs*int64(rapid.IntRange(1, 6).Draw(rt, l+".cancelchunks")) + rapid.SampledFrom([]int64{0, 1, 500}).Draw(rt, l+".canceloff")
+			}
 		}
 		r.NoDB = rapid.IntRange(0, 20).Draw(rt, l+".nodb") == 0
 	}
